@@ -128,8 +128,12 @@ func FSTrace(events []Sys, cwd string) []FSEvent {
 		case "rename", "renameat", "renameat2", "unlink", "unlinkat", "mkdir", "mkdirat", "rmdir", "symlink", "symlinkat", "link", "linkat",
 			"chmod", "fchmodat", "chown", "lchown", "fchownat", "utimensat", "utimes", "utime", "truncate", "mknod", "mknodat", "setxattr":
 			ps := quotedRe.FindAllStringSubmatch(e.Args, -1)
-			for _, m := range ps {
-				out = append(out, FSEvent{Kind: "mutate", Path: abs(m[1]), Sys: e.Name, OK: ok, Raw: raw})
+			for i, m := range ps {
+				kind := "mutate"
+				if strings.HasPrefix(e.Name, "rename") && i == len(ps)-1 && len(ps) >= 2 {
+					kind = "rename-dest"
+				}
+				out = append(out, FSEvent{Kind: kind, Path: abs(m[1]), Sys: e.Name, OK: ok, Raw: raw})
 			}
 			if len(ps) == 0 {
 				out = append(out, FSEvent{Kind: "mutate", Path: "", Sys: e.Name, OK: ok, Raw: raw})
